@@ -251,3 +251,32 @@ fn c12_fields_of_fields_through_storage_stay_inside_the_slot() {
     // D28 (recorded): the nesting check of the sub-word lift is syntactic and cannot see a field that reaches its parent through SSTORE / SLOAD
     check_in_slot_as("c12_fields_through_storage", "layout.entry_inside_slot.d28_field_of_field_through_storage", progs);
 }
+
+/// three and four levels of mask-and-shift nested in one expression: (((src >> s1) & m1) >> s2) & m2) >> s3) & m3 ...; each
+/// level fits the one it is taken from, or not; the offsets add up over ALL the levels
+#[test]
+fn c12_deeply_nested_masks_stay_inside_the_slot() {
+    let low = |len: u32| -> U256 { if len >= 256 { U256::MAX } else { (U256::ONE << len) - U256::ONE } };
+    let levels: [(u16, u32); 8] = [(128, 128), (64, 64), (100, 32), (0, 200), (8, 8), (192, 64), (32, 160), (250, 6)];
+    let mut progs: Vec<(String, Vec<u8>)> = vec![];
+    for a in levels { for b in levels { for c in levels {
+        for depth4 in [false, true] {
+            if depth4 && (a.0 + b.0 + c.0) % 3 != 0 { continue; }
+            for src in [vec![0x60u8, 0x01, 0x54], vec![0x60, 0x00, 0x35]] {
+                let mut chain = vec![a, b, c];
+                if depth4 { chain.push((16, 16)); }
+                // innermost first
+                let mut code = src.clone();
+                let mut desc = String::from("src");
+                for (s, l) in &chain {
+                    push_word(&mut code, U256::from(*s)); code.push(0x1c);
+                    push_word(&mut code, low(*l)); code.push(0x16);
+                    desc = format!("(({desc} >> {s}) & 2^{l}-1)");
+                }
+                code.extend([0x60, 0x02, 0x55, 0x00]);
+                progs.push((format!("sstore(2, {desc})"), code));
+            }
+        }
+    } } }
+    check_in_slot("c12_deeply_nested_masks", progs);
+}
